@@ -10,12 +10,38 @@ fast-path `Storage.Get`, `Lock.Lock(key)`, second `Storage.Get` under the lock, 
 another thread holds that mutex) and `MemoryLock.Unlock` three (the block under `l.mu`: look up; then
 `lock.mu.Unlock()`; then the second block under `l.mu`: `locked--`, `delete(l.keys, key)` at zero).
 A block guarded by `l.mu` is one atomic step (sync.Mutex is assumed to be a mutex). Storage and lock
-calls can fail (`Act.fault`). A stored response is represented by the thread that produced it.
+calls can fail (`Act.fault`): `Storage.Get` (both), `Lock.Lock`, `Storage.Set` and `Lock.Unlock`. A failing
+`Unlock` is modelled in its adversarial form: the call returns an error *without* having released the
+key's lock (the middleware only logs the error), so the lock stays held for ever (`Pc.leaked`); an
+`Unlock` that releases and then reports an error is indistinguishable from a successful one, because
+the middleware ignores the result. The storage records, per key, who produced the record and when it
+expires (`store`) and the recorded response itself (`vals`): status, body and the headers selected by
+`KeepResponseHeaders`.
 -/
 namespace C17
 
 abbrev Tid := Nat
 abbrev Key := Nat
+
+/-- a response as far as the property looks at it (status, body, headers in wire order) -/
+structure Resp where
+  status : Nat
+  body : String
+  hdrs : List (String × String)
+  deriving Repr, BEq, DecidableEq
+
+def lower (s : String) : String := String.ofList (s.toList.map Char.toLower)
+
+/-- idempotency.go New: `keepResponseHeadersMap[strings.ToLower(h)]`, looked up with
+`utils.ToLower(h)`; `KeepResponseHeaders == nil` keeps every header -/
+def kept (keep : Option (List String)) (name : String) : Bool :=
+  match keep with
+  | none => true
+  | some l => l.any fun n => lower n == lower name
+
+/-- idempotency.go New, "Construct response": what is recorded of the handler's response -/
+def recorded (keep : Option (List String)) (r : Resp) : Resp :=
+  { r with hdrs := r.hdrs.filter fun h => kept keep h.1 }
 
 /-- what the request brings -/
 structure Req where
@@ -23,6 +49,7 @@ structure Req where
                        --  (Config.Next: safe method, or no key header)
   invalid : Bool       -- unsafe method whose key fails KeyHeaderValidate
   fails : Bool         -- the downstream handler returns an error
+  resp : Resp := ⟨200, "", []⟩   -- what the downstream handler answers for this request when it succeeds
   deriving Repr
 
 inductive Pc
@@ -40,6 +67,7 @@ inductive Pc
   | unlockDec      -- MemoryLock.Unlock: second block under l.mu
   | atHandlerB     -- middleware stepped aside; about to run c.Next()
   | done
+  | leaked         -- finished, but its Lock.Unlock failed: the key's lock is never released
   deriving DecidableEq, Repr
 
 /-- how the request was answered -/
@@ -59,6 +87,8 @@ structure Thread where
   ran : Bool := false     -- the downstream handler was executed for this request
   doneAt : Nat := 0       -- second at which the handler completed successfully (ghost)
   stored : Bool := false  -- its Storage.Set succeeded (ghost)
+  ans : Option Resp := none  -- the response answered (meaningful when `out` is `own` or `replay`): the handler's
+                             --  own response, or the record read from the storage
 
 /-- locker.go countedLock -/
 structure CLock where
@@ -68,6 +98,8 @@ structure CLock where
 
 structure G where
   store : Key → Option (Tid × Nat)    -- recorded response (by its producer) and absolute expiry second
+  vals : Key → Option Resp            -- the recorded response itself (what Storage.Get returns, unmarshalled)
+  keep : Option (List String)         -- Config.KeepResponseHeaders (never changes)
   keys : Key → Option Nat          -- MemoryLock.keys
   locks : Nat → CLock              -- the heap of countedLock objects
   nextId : Nat
@@ -76,7 +108,7 @@ structure G where
 
 inductive Act
   | thr (t : Tid)       -- next atomic step
-  | fault (t : Tid)     -- the pending Storage.Get / Lock.Lock / Storage.Set call returns an error
+  | fault (t : Tid)     -- the pending Storage.Get / Lock.Lock / Storage.Set / Lock.Unlock call returns an error
   | tick (d : Nat)
 
 def G.setThread (g : G) (t : Tid) (th : Thread) : G :=
@@ -105,7 +137,7 @@ def stepThr (life : Nat) (g : G) (t : Tid) : Option G :=
     | none => none
     | some k =>
       match lookup g k with
-      | some r => some (g.setThread t { th with pc := .done, out := .replay r })
+      | some r => some (g.setThread t { th with pc := .done, out := .replay r, ans := g.vals k })
       | none => some (g.setThread t { th with pc := .atLock })
   | .atLock => some (g.setThread t { th with pc := .lockInc })
   | .lockInc =>
@@ -129,16 +161,17 @@ def stepThr (life : Nat) (g : G) (t : Tid) : Option G :=
     | none => none
     | some k =>
       match lookup g k with
-      | some r => some (g.setThread t { th with pc := .atUnlock, out := .replay r })
+      | some r => some (g.setThread t { th with pc := .atUnlock, out := .replay r, ans := g.vals k })
       | none => some (g.setThread t { th with pc := .atHandler })
   | .atHandler =>
     if th.req.fails then some (g.setThread t { th with pc := .atUnlock, out := .errHandler, ran := true })
-    else some (g.setThread t { th with pc := .atSet, ran := true, doneAt := g.now })
+    else some (g.setThread t { th with pc := .atSet, ran := true, doneAt := g.now, ans := some th.req.resp })
   | .atSet =>
     match th.req.key with
     | none => none
     | some k =>
-      some ({ g with store := fun k' => if k' = k then some (t, g.now + life) else g.store k' }.setThread t
+      some ({ g with store := fun k' => if k' = k then some (t, g.now + life) else g.store k',
+                     vals := fun k' => if k' = k then some (recorded g.keep th.req.resp) else g.vals k' }.setThread t
         { th with pc := .atUnlock, out := .own, stored := true })
   | .atUnlock => some (g.setThread t { th with pc := .unlockLookup })
   | .unlockLookup =>
@@ -159,8 +192,10 @@ def stepThr (life : Nat) (g : G) (t : Tid) : Option G :=
       let g2 : G := if l.locked - 1 ≤ 0 then { g1 with keys := fun k' => if k' = k then none else g1.keys k' } else g1
       some (g2.setThread t { th with pc := .done })
   | .atHandlerB =>
-    some (g.setThread t { th with pc := .done, ran := true, out := if th.req.fails then .errHandler else .own })
+    some (g.setThread t { th with pc := .done, ran := true, out := if th.req.fails then .errHandler else .own,
+                                   ans := if th.req.fails then none else some th.req.resp })
   | .done => none
+  | .leaked => none
 
 /-- the pending call fails -/
 def stepFault (g : G) (t : Tid) : Option G :=
@@ -169,7 +204,8 @@ def stepFault (g : G) (t : Tid) : Option G :=
   | .atGet1 => some (g.setThread t { th with pc := .done, out := .errGet1 })
   | .atLock => some (g.setThread t { th with pc := .done, out := .errLock })
   | .atGet2 => some (g.setThread t { th with pc := .atUnlock, out := .errGet2 })
-  | .atSet => some (g.setThread t { th with pc := .atUnlock, out := .errSet })
+  | .atSet => some (g.setThread t { th with pc := .atUnlock, out := .errSet, ans := none })
+  | .atUnlock => some (g.setThread t { th with pc := .leaked })     -- error is only logged; lock not released
   | _ => none
 
 def step (life : Nat) (g : G) : Act → Option G
@@ -179,8 +215,8 @@ def step (life : Nat) (g : G) : Act → Option G
 
 def sys (life : Nat) : Conc.System G Act := ⟨step life⟩
 
-def init (reqs : Tid → Req) (t0 : Nat) : G :=
-  { store := fun _ => none, keys := fun _ => none, locks := fun _ => ⟨0, none, []⟩, nextId := 0, now := t0,
+def init (reqs : Tid → Req) (t0 : Nat) (keep : Option (List String) := none) : G :=
+  { store := fun _ => none, vals := fun _ => none, keep := keep, keys := fun _ => none, locks := fun _ => ⟨0, none, []⟩, nextId := 0, now := t0,
     threads := fun t => { req := reqs t } }
 
 end C17
